@@ -281,9 +281,13 @@ TIOEnd ==
   /\ LET known == Line.id \in DOMAIN s.io
          s1 == IF known THEN [IOEnd(s, s.io[Line.id]) EXCEPT !.io = Del(@, {Line.id})] ELSE s
          r  == Proj(Line.rep)
+         \* a SETATTR without state id that was held inside a leaf which lost
+         \* its last reference meanwhile fails (see harness/nfs40/fixture_test.go)
+         m  == IF known /\ s.io[Line.id].kind = "plain" /\ s.io[Line.id].f > 0 /\ ~LeafAlive(s, s.io[Line.id].f)
+               THEN Err("STALE") ELSE OkRep
      IN /\ s' = s1
         /\ verdict' = First(<<IF ~known THEN "NC:completion-of-unknown-request"
-                              ELSE IF r # OkRep THEN "NC:reply-differs" ELSE "ok",
+                              ELSE IF r # m THEN "NC:reply-differs" ELSE "ok",
                               LeafVerdict(s1, Line.leaf), HookC20(s1, Line.hook)>>)
         /\ Observe(s1, Line) /\ Remember(Line)
   /\ UNCHANGED last
